@@ -10,6 +10,7 @@ mod fam;
 mod fchecks;
 mod mchecks;
 mod nchecks;
+mod pchecks;
 mod report;
 mod sut;
 mod tchecks;
@@ -95,6 +96,10 @@ fn main() {
             }
             println!("{}", single_dispatch(&args[2], &args[3], &args[4]));
         }
+        "hist" => {
+            let idx: Vec<usize> = args[2..].iter().map(|a| a.parse().expect("call index")).collect();
+            pchecks::hist_main(&idx);
+        }
         "replay" => {
             if args.len() < 3 {
                 usage();
@@ -105,6 +110,10 @@ fn main() {
             let at = v["placeholder"].as_str().unwrap_or("-");
             let input = v["input"].as_str().unwrap_or("");
             println!("property {} kind {}", v["property"], v["kind"]);
+            if let Some(still) = pchecks::replay_detail(&v["detail"]) {
+                println!("{}", if still { "still violated" } else { "no longer violated" });
+                std::process::exit(if still { 1 } else { 0 });
+            }
             println!("expected: {}", v["expected"]);
             println!("recorded: {}", v["observed"]);
             let a = single_dispatch(ev, at, input);
